@@ -26,6 +26,8 @@ GEN_FILES = [RTL, 'py4hw/transpilation/python2verilog_transpilation.py', 'py4hw/
 MUT = {'append', 'extend', 'insert', 'remove', 'pop', 'clear', 'reverse', 'sort', 'update', 'setdefault', 'put', 'prepare', 'settle', 'setSource',
        'addSource', 'addSink', 'addIn', 'addOut', 'addInOut', 'addParameter', 'appendWire', 'rename', 'reparent', 'reparentAndRename', 'wire', 'wires',
        'bidir_wire', 'addInterfaceSource', 'addInterfaceSink', 'reconnectIn', 'popitem', '__setitem__', '__delitem__'}
+CONTAINER_ATTRS = {'inPorts', 'outPorts', 'inOutPorts', 'children', '_wires', 'sinks', 'ins', 'outs', 'bits', 'sels', 'parameters', 'sourceToSink', 'sinkToSource', 'clockables',
+                   'propagatables', 'sources', 'wires'}
 CIRC_PARAM = {'obj', 'child', 'w', 'wire', 'p', 'scope', 'ins', 'inp', 'outp', 'port', 'parent', 'logic', 'circuit', 'block', 'instance', 'leaf'}
 
 
@@ -98,6 +100,13 @@ def effects(facts):
                     for t in (tg.elts if isinstance(tg, ast.Tuple) else [tg]):
                         if isinstance(t, (ast.Attribute, ast.Subscript)) and rooted(t.value):
                             out.append((rel, qual(c, fn), 'store', norm(t)))
+            # `outs = obj.outPorts; outs += obj.inOutPorts`: for a list, += extends the object in place - the circuit's own port list grows
+            if isinstance(n, ast.AugAssign) and isinstance(n.target, ast.Name) and isinstance(n.op, (ast.Add, ast.Mult, ast.BitOr)):
+                for m in ast.walk(fn):
+                    if isinstance(m, ast.Assign) and any(isinstance(t, ast.Name) and t.id == n.target.id for t in m.targets) and isinstance(m.value, ast.Attribute) \
+                            and m.value.attr in CONTAINER_ATTRS and rooted(m.value.value):
+                        out.append((rel, qual(c, fn), 'in-place', '%s (alias of %s)' % (norm(n)[:50], norm(m.value))))
+                        break
             if isinstance(n, ast.Call) and isinstance(n.func, ast.Attribute) and n.func.attr in MUT and rooted(n.func.value):
                 out.append((rel, qual(c, fn), 'call', norm(n.func)))
             if isinstance(n, ast.Call) and isinstance(n.func, ast.Name) and n.func.id in ('setattr', 'delattr') and n.args and rooted(n.args[0]):
